@@ -1,6 +1,8 @@
 package chain
 
 import (
+	"fmt"
+	"os"
 	"math/big"
 	"time"
 
@@ -65,6 +67,9 @@ func (t *frameTracer) CaptureEnter(typ vm.OpCode, from, to common.Address, input
 	case vm.SELFDESTRUCT:
 		t.destruct = append(t.destruct, from)
 	}
+	if os.Getenv("VERIF_DEBUG") == "2" {
+		fmt.Printf("TRACE enter %v from=%x to=%x value=%v gas=%d\n", typ, from, to, value, gas)
+	}
 }
 func (t *frameTracer) CaptureExit([]byte, uint64, error) {}
 func (t *frameTracer) CaptureState(uint64, vm.OpCode, uint64, uint64, *vm.ScopeContext, []byte, int, error) {
@@ -72,8 +77,9 @@ func (t *frameTracer) CaptureState(uint64, vm.OpCode, uint64, uint64, *vm.ScopeC
 func (t *frameTracer) CaptureFault(uint64, vm.OpCode, uint64, uint64, *vm.ScopeContext, int, error) {}
 
 type Destructed struct {
-	Addr  common.Address
-	Nonce uint64
+	Addr    common.Address
+	Nonce   uint64
+	Balance *big.Int // what the account holds when the tx ends (received after it self-destructed): burnt by EVM definition
 }
 
 type EvmResult struct {
@@ -120,7 +126,7 @@ func RefExec(w *state.StateDB, env *EvmEnv, txhash common.Hash, txidx int, from 
 	for _, a := range tr.destruct {
 		if !seen[a] && w.HasSuicided(a) {
 			seen[a] = true
-			res.Destructed = append(res.Destructed, Destructed{Addr: a, Nonce: w.GetNonce(a)})
+			res.Destructed = append(res.Destructed, Destructed{Addr: a, Nonce: w.GetNonce(a), Balance: new(big.Int).Set(w.GetBalance(a))})
 		}
 	}
 	w.Finalise(true)
